@@ -24,7 +24,7 @@ ASSUMPTIONS = [
     'the deciding part is BOUNDED (eigenvalues, square roots of matrices, entropies, torch models): seeded two-qubit states of every rank including near-separable and boundary states; seeded parameter vectors of several scales for every model',
     'proved core: the matrix whose spectrum get_concurrence_2qubit takes is sqrt(rho) (sy(x)sy) rho^* (sy(x)sy) sqrt(rho) - the spin-flip part is an exact index identity; get_concurrence_pure(psi)^2 == 2(1 - Tr rho_A^2) for symbolic psi',
 ]
-STUBS = ['numpy.linalg.eigh / eigvalsh recorders (spin-flip obligation)']
+STUBS = ['numpy.linalg.eigh / eigvalsh recorders (spin-flip obligation)', 'get_concurrence_2qubit, numpy.linalg.eigvals / eigvalsh recorders reporting fixed exact values (closed_forms.plumbing)']
 NUMPY_MODELS = ['vdot']
 BOUNDED_RULE = ('random two-qubit density matrices of rank 1..4 (Haar/Bures, near-separable mixtures, boundary states, Werner/isotropic), random local unitaries, random pure states: finiteness, ranges, local-unitary invariance, pure-state formulas, '
                 'monotone relations between concurrence / EOF / GME, non-zero <=> NPT; for every variational model (EOF, concurrence, GME, linear entropy) and random parameter vectors at scales 1e-8, 1e-4, 0.1, 1, 10 with ensemble sizes rank..8: loss >= closed-form value - 1e-7. '
@@ -128,13 +128,142 @@ class ConcPure:
         return []
 
 
-CONTRACTS = {'spin': SpinFlip(), 'pure': ConcPure()}
+_CVALS = [sp.Integer(0), sp.Rational(3, 5), sp.Rational(5, 13), sp.Integer(1), 1 + sp.Rational(1, 2 ** 50)]   # concurrences the stub reports (1 - C^2 a rational square; C = 1 + rounding)
+_NEG_EV = [sp.Rational(-1, 4) + 0 * sp.I, sp.Rational(1, 8) * sp.I - sp.Rational(1, 8), sp.Rational(1, 2), sp.Rational(3, 4)]   # values reported by eigvals (a general matrix routine: complex allowed)
+_PURE_EV = {2: [sp.Rational(1, 4), sp.Rational(3, 4)], 3: [sp.Rational(1, 8), sp.Rational(1, 4), sp.Rational(5, 8)]}   # all well above eps: how eigenvalues below eps are dropped / clamped is not part of the contract
+import numqi.entangle._misc as emisc
+import types as _types
+
+
+def _h2(x):
+    return -x * sp.log(x) - ((1 - x) * sp.log(1 - x) if (1 - x) > 0 else 0)
+
+
+class ClosedForms:
+    """get_eof_2qubit / get_gme_2qubit are functions of the concurrence only, get_negativity / get_eof_pure of one spectrum. With the concurrence routine / the eigenvalue
+    routines replaced by recorders that report fixed exact values: the operand handed over is rho itself (resp. its partial transpose, resp. the smaller Gram matrix of psi),
+    and the result is the literature formula of the reported value(s), exactly."""
+    prop = PROP; name = 'closed_forms.plumbing'; modules = [eof, meas, emisc]
+    targets = ['numqi.entangle.eof:get_eof_2qubit', 'numqi.entangle.measure:get_gme_2qubit', 'numqi.entangle._misc:get_negativity', 'numqi.entangle.eof:get_eof_pure']
+
+    def shape_label(self, _): return 'rho symbolic Hermitian 4x4 / 6x6, psi symbolic 2x3, 3x2, 3x3, 1x3'
+
+    def inputs(self, _):
+        from .c05 import _herm_sym
+        return dict(rho=_herm_sym('r', 4), rho6=_herm_sym('s', 6), psi23=alg.sym_complex('a', (2, 3))[0], psi32=alg.sym_complex('b', (3, 2))[0], psi33=alg.sym_complex('c', (3, 3))[0],
+                    psi13=alg.sym_complex('d', (1, 3))[0])
+
+    def call(self, I):
+        rho = I['rho']
+        if not isinstance(rho, SymArray):
+            return dict(sym=False, eof=eof.get_eof_2qubit(rho), gme=meas.get_gme_2qubit(rho), C=eof.get_concurrence_2qubit(rho), neg=emisc.get_negativity(rho, (2, 2)), neg6=emisc.get_negativity(I['rho6'], (2, 3)),
+                        ep={k: eof.get_eof_pure(I[k]) for k in ('psi23', 'psi32', 'psi33', 'psi13')})
+        out = dict(sym=True, eof=[], gme=[], eof_args=[], gme_args=[])
+        for C in _CVALS:
+            rec = []
+            with shimmed([eof, meas], dom=ALG, extra={(eof, 'get_concurrence_2qubit'): lambda x, C=C: (rec.append(('eof', x)), C)[1], (meas, 'get_concurrence_2qubit'): lambda x, C=C: (rec.append(('gme', x)), C)[1]}):
+                out['eof'].append(eof.get_eof_2qubit(rho)); out['gme'].append(meas.get_gme_2qubit(rho))
+            out['eof_args'].append([a for k, a in rec if k == 'eof']); out['gme_args'].append([a for k, a in rec if k == 'gme'])
+        rec = []
+
+        def with_linalg(mod, **fns):
+            shim_np = mod.np; real_linalg = shim_np.linalg
+
+            class L(_types.ModuleType):
+                def __getattr__(s_, k): return getattr(real_linalg, k)
+            Lm = L('lin')
+            for k, f in fns.items():
+                setattr(Lm, k, f)
+            shim_np.__dict__['linalg'] = Lm
+            return shim_np, real_linalg
+
+        def eigvals(x):
+            rec.append(x); n = SS.arr(x).shape[0]
+            vals = (_NEG_EV + [sp.Rational(1, 3), sp.Rational(-2, 3)])[:n]
+            return SymArray(np.array(vals, dtype=object), np.complex128, ALG)
+        with shimmed([emisc], dom=ALG):
+            shim_np, real_linalg = with_linalg(emisc, eigvals=eigvals)
+            try:
+                out['neg'] = emisc.get_negativity(rho, (2, 2)); out['neg6'] = emisc.get_negativity(I['rho6'], (2, 3))
+            finally:
+                shim_np.__dict__['linalg'] = real_linalg
+        out['neg_args'] = list(rec); rec.clear()
+
+        def eigvalsh(x):
+            rec.append(x); n = SS.arr(x).shape[0]
+            return SymArray(np.array(_PURE_EV[n], dtype=object), np.float64, ALG)
+        out['ep'] = {}; out['ep_args'] = {}
+        with shimmed([eof], dom=ALG):
+            shim_np, real_linalg = with_linalg(eof, eigvalsh=eigvalsh)
+            try:
+                for k in ('psi23', 'psi32', 'psi33', 'psi13'):
+                    out['ep'][k] = eof.get_eof_pure(I[k]); out['ep_args'][k] = list(rec); rec.clear()
+            finally:
+                shim_np.__dict__['linalg'] = real_linalg
+        return out
+
+    def post(self, I, r):
+        sc = lambda v: v if isinstance(v, (sp.Basic, int, float)) or not hasattr(v, 'ravel') else SS.arr(v).ravel()[0]
+        R = SS.arr(I['rho']); R6 = SS.arr(I['rho6'])
+        if not r['sym']:
+            C = float(r['C']); x = (1 + math.sqrt(max(0.0, 1 - C * C))) / 2
+            h = 0.0 if C == 0 else float(-x * math.log(x) - ((1 - x) * math.log(1 - x) if 1 - x > 0 else 0))
+            pt = lambda m, dA, dB: m.reshape(dA, dB, dA, dB).transpose(0, 3, 2, 1).reshape(dA * dB, dA * dB)
+            ng = lambda m, dA, dB: (np.abs(np.linalg.eigvalsh(pt(m, dA, dB))).sum() - 1) / 2
+            cl = [('eof_is_binary_entropy_of_the_concurrence', np.array([float(r['eof'])]), np.array([h])), ('gme_is_(1-sqrt(1-C^2))/2', np.array([float(r['gme'])]), np.array([(1 - math.sqrt(max(0.0, 1 - C * C))) / 2])),
+                  ('negativity_is_(sum|ev(rho^Gamma)|-1)/2', np.array([float(r['neg']), float(r['neg6'])]), np.array([ng(R, 2, 2), ng(R6, 2, 3)]))]
+            for k, v in r['ep'].items():
+                P = SS.arr(I[k]); ev = np.linalg.eigvalsh(P @ P.conj().T); ev = ev[ev > 1e-10]
+                cl.append((f'eof_pure[{k}]', np.array([float(v)]), np.array([float(-(ev * np.log(ev)).sum())])))
+            return cl
+        cl = []
+
+        def one_of(x, cands):
+            # spectra that coincide (a matrix and its transpose; the two Gram matrices of psi above eps): any of them may be handed to the eigenvalue routine
+            for cand in cands:
+                if x.shape == cand.shape and all(sp.expand(a - b) == 0 for a, b in zip(x.ravel(), cand.ravel())):
+                    return cand
+            return cands[0]
+        exp_e = []; exp_g = []
+        for C in _CVALS:
+            rad = max(sp.Integer(0), 1 - C * C); root = sp.sqrt(rad)
+            exp_e.append(sp.Integer(0) if C == 0 else _h2((1 + root) / 2)); exp_g.append((1 - root) / 2)
+        cl.append(('eof_is_binary_entropy_of_((1+sqrt(max(0,1-C^2)))/2)_for_the_reported_concurrence', np.array([sp.nsimplify(sc(v)) if not isinstance(sc(v), sp.Basic) else sc(v) for v in r['eof']], dtype=object), np.array(exp_e, dtype=object)))
+        cl.append(('gme_is_(1-sqrt(max(0,1-C^2)))/2_for_the_reported_concurrence', np.array([sc(v) for v in r['gme']], dtype=object), np.array(exp_g, dtype=object)))
+        cl.append(('concurrence_routine_called_once_with_rho_itself', [np.array([len(a) for a in r['eof_args']] + [len(a) for a in r['gme_args']])] + [SS.arr(a[0]) for a in r['eof_args']] + [SS.arr(a[0]) for a in r['gme_args']],
+                   [np.array([1] * (2 * len(_CVALS)))] + [R] * (2 * len(_CVALS))))
+        pt = lambda m, dA, dB: m.reshape(dA, dB, dA, dB).transpose(0, 3, 2, 1).reshape(dA * dB, dA * dB)
+        cl.append(('negativity_eigenvalues_are_taken_of_the_partial_transpose', [np.array([len(r['neg_args'])]), SS.arr(r['neg_args'][0]), SS.arr(r['neg_args'][-1])],
+                   [np.array([2]), one_of(SS.arr(r['neg_args'][0]), [pt(R, 2, 2), pt(R, 2, 2).T]), one_of(SS.arr(r['neg_args'][-1]), [pt(R6, 2, 3), pt(R6, 2, 3).T])]))
+        ab = lambda vals: sum(sp.sqrt(sp.re(v) ** 2 + sp.im(v) ** 2) for v in vals)
+        cl.append(('negativity_is_(sum_of_moduli_of_the_reported_eigenvalues-1)/2', np.array([sc(r['neg']), sc(r['neg6'])], dtype=object),
+                   np.array([(ab(_NEG_EV) - 1) / 2, (ab(_NEG_EV + [sp.Rational(1, 3), sp.Rational(-2, 3)]) - 1) / 2], dtype=object)))
+        for k in ('psi23', 'psi32', 'psi33'):
+            P = SS.arr(I[k]); g1 = np.matmul(P, SS.dagger(P)); g2 = np.matmul(SS.dagger(P), P)
+            small = one_of(SS.arr(r['ep_args'][k][0]), [g1, g2, g1.T, g2.T] if P.shape[0] <= P.shape[1] else [g2, g1, g2.T, g1.T])
+            n = small.shape[0]; ev = _PURE_EV[n]
+            cl.append((f'eof_pure_spectrum_of_a_gram_matrix_of_psi[{k}]', [np.array([len(r["ep_args"][k])]), SS.arr(r['ep_args'][k][0])], [np.array([1]), small]))
+            cl.append((f'eof_pure_is_minus_sum_xlogx_of_the_reported_eigenvalues[{k}]', np.array([sc(r['ep'][k])], dtype=object), np.array([-sum(x * sp.log(x) for x in ev)], dtype=object)))
+        cl.append(('eof_pure_of_a_product_shape_is_zero_without_an_eigenproblem', np.array([sc(r['ep']['psi13']), len(r['ep_args']['psi13'])], dtype=object), np.array([0, 0], dtype=object)))
+        return cl
+
+    def sample(self, rng, _):
+        def dm(n):
+            x = _rc(rng, n, n); m = x @ x.conj().T
+            return m / np.trace(m).real
+        def ket(a, b):
+            x = _rc(rng, a, b); return x / np.linalg.norm(x)
+        return dict(rho=dm(4), rho6=dm(6), psi23=ket(2, 3), psi32=ket(3, 2), psi33=ket(3, 3), psi13=ket(1, 3))
+
+
+CONTRACTS = {'spin': SpinFlip(), 'pure': ConcPure(), 'closed': ClosedForms()}
 
 
 def job_core(tier, rng):
     out = verify_identity(CONTRACTS['spin'], 0, tier, rng, crosscheck=0)
     for sh in [(2, 2), (2, 3), (3, 2)]:
         out += verify_identity(CONTRACTS['pure'], sh, tier, rng, crosscheck=0)
+    out += verify_identity(CONTRACTS['closed'], 0, tier, rng, crosscheck=0)
     return out
 
 
@@ -169,6 +298,22 @@ def _states(rng, tier):
 def job_closed_forms(tier, rng):
     bad = None; cnt = 0; nontriv = 0
     E = numqi.entangle
+    # real-dtype inputs (float64 arrays): same values as the complex copy, and the caller's matrix is not modified
+    for t in range(40 if tier == 'quick' else 200):
+        x = rng.normal(size=(4, int(rng.integers(1, 5)))); rr = x @ x.T; rr = rr / np.trace(rr)
+        keep = rr.copy()
+        try:
+            vals_r = [float(E.get_concurrence_2qubit(rr)), float(E.get_eof_2qubit(rr)), float(E.get_gme_2qubit(rr))]
+            untouched = np.array_equal(rr, keep)
+            vals_c = [float(E.get_concurrence_2qubit(keep.astype(complex))), float(E.get_eof_2qubit(keep.astype(complex))), float(E.get_gme_2qubit(keep.astype(complex)))]
+            ok = untouched and np.allclose(vals_r, vals_c, atol=1e-7, rtol=0) and np.isfinite(vals_r).all()
+        except Exception as ex:
+            if not from_repo(ex):
+                raise
+            ok = False
+        cnt += 1; nontriv += 1
+        if not ok and bad is None:
+            bad = dict(state='real_dtype_input', rho=jsonable(keep.astype(complex)))
     for label, rho in _states(rng, tier):
         try:
             C = float(E.get_concurrence_2qubit(rho)); F = float(E.get_eof_2qubit(rho)); Gm = float(E.get_gme_2qubit(rho)); N = float(E.get_negativity(rho, (2, 2)))
